@@ -3,6 +3,7 @@ package props
 import (
 	"fmt"
 	"go/token"
+	"go/types"
 
 	"golang.org/x/tools/go/ssa"
 
@@ -125,5 +126,82 @@ func c19NoBoxNoCounters(c *core.Check) {
 	}
 	if n == 0 {
 		r.Unknown("html/boxes.beforeAfterToBox | content tests", p.Pos(fn.Pos()), "no comparison of the content with none/normal/inhibit")
+	}
+}
+
+// c19StyleKeywordNeedsType (R16): a counter style is a tagged value: an identifier, a string or symbols().  The
+// keyword `none` (no marker, no counter text) is the identifier; the string "none" is a marker whose text is none.
+// Wherever the name of a counter style is compared with none, the type of the same value is tested too.
+func c19StyleKeywordNeedsType(c *core.Check) {
+	p := c.Prog
+	r := c.Rule("R16", "the keyword none is not the string \"none\": in html/boxes and css/counters every comparison of a CounterStyleID's Name with \"none\" goes with a comparison of the Type of the same value (same condition chain or a dominating test)", 3)
+	isStyle := func(t types.Type) bool {
+		if pt, ok := t.(*types.Pointer); ok {
+			t = pt.Elem()
+		}
+		n, ok := t.(*types.Named)
+		return ok && n.Obj().Name() == "CounterStyleID"
+	}
+	fieldOfStyle := func(v ssa.Value) (string, string, bool) {
+		switch x := v.(type) {
+		case *ssa.Field:
+			if isStyle(x.X.Type()) {
+				return x.X.Type().Underlying().(*types.Struct).Field(x.Field).Name(), valueText(x.X), true
+			}
+		case *ssa.UnOp:
+			if fa, ok := x.X.(*ssa.FieldAddr); ok && isStyle(fa.X.Type()) {
+				return core.FieldName(fa), valueText(fa.X), true
+			}
+		}
+		return "", "", false
+	}
+	n := 0
+	for _, pkg := range []string{"html/boxes", "css/counters", "html/layout"} {
+		for _, fn := range p.FuncsOfPkg(pkg) {
+			if fn.Blocks == nil {
+				continue
+			}
+			type atom struct {
+				bo   *ssa.BinOp
+				base string
+			}
+			var names, typesT []atom
+			for _, a := range core.CondAtoms(fn) {
+				bo, ok := a.(*ssa.BinOp)
+				if !ok || (bo.Op != token.EQL && bo.Op != token.NEQ) {
+					continue
+				}
+				k, ok := core.ConstStr(bo.Y)
+				if !ok {
+					continue
+				}
+				f, base, ok := fieldOfStyle(bo.X)
+				if !ok {
+					continue
+				}
+				if f == "Name" && k == "none" {
+					names = append(names, atom{bo, base})
+				} else if f == "Type" {
+					typesT = append(typesT, atom{bo, base})
+				}
+			}
+			for i, na := range names {
+				n++
+				key := fmt.Sprintf("%s | style name compared with none #%d", core.FuncName(fn), i+1)
+				ok := false
+				for _, ta := range typesT {
+					if ta.base != na.base {
+						continue
+					}
+					if ta.bo.Block() == na.bo.Block() || ta.bo.Block().Dominates(na.bo.Block()) || na.bo.Block().Dominates(ta.bo.Block()) {
+						ok = true
+					}
+				}
+				r.Cond(ok, key, p.Pos(na.bo.Pos()), "together with a test of the style's type", "only the name is compared: `counter(c, \"none\")` and `list-style-type: \"none\"` (strings) are handled as the keyword none and print nothing")
+			}
+		}
+	}
+	if n == 0 {
+		r.Unknown("html/boxes | counter style names compared with none", "-", "none found")
 	}
 }
